@@ -56,6 +56,8 @@ pub struct Profile {
     pub p_shared_prefix: u32,
     pub p_twin: u32,
     pub p_sibling: u32,
+    /// chance of the "nullable tail" gadget: `[nt:NulS]` (a field whose rule can match nothing) at the end of a struct rule
+    pub p_nullable_tail: u32,
     pub w_record: u32,
     pub user_ctx: bool,
 }
@@ -107,6 +109,7 @@ impl Profile {
             p_shared_prefix: 12,
             p_twin: 0,
             p_sibling: 0,
+            p_nullable_tail: 0,
             w_record: 3,
             user_ctx: false,
         }
@@ -130,6 +133,7 @@ impl Profile {
                 p.name = "fields";
                 p.w_record = 16;
                 p.p_sibling = 70;
+                p.p_nullable_tail = 70;
                 p.w_field = 30;
                 p.w_lit = 20;
                 p.k_struct = 12;
@@ -145,6 +149,7 @@ impl Profile {
                 p.name = "types";
                 p.w_record = 12;
                 p.p_sibling = 50;
+                p.p_nullable_tail = 40;
                 p.w_field = 34;
                 p.w_lit = 14;
                 p.k_struct = 12;
@@ -1092,6 +1097,57 @@ impl<'a, 'b> Gen<'a, 'b> {
         g.rules.push(RuleDef::Normal(sib));
     }
 
+    /// `[nt:NulS]` / `[nt:NulS nr:NulR]` appended to a struct rule, where `NulS` / `NulR` can match the empty string: an
+    /// optional whose body succeeds without consuming - also when the input is exhausted - must still fill its fields
+    fn add_nullable_tail(&mut self, g: &mut Grammar) {
+        if g.find("NulS").is_some() || g.find("NulR").is_some() {
+            return;
+        }
+        let snapshot = g.clone();
+        let cands: Vec<usize> = g
+            .rules
+            .iter()
+            .enumerate()
+            .filter_map(|(i, r)| match r {
+                RuleDef::Normal(n) if !n.string() && !n.leftrec() && n.name != "Whitespace" => match fields_of(&snapshot, &n.body, 0) {
+                    Ok(fs) if !fs.is_empty() && fs.iter().all(|f| f.name != shapes::OVERRIDE && f.name != "nt" && f.name != "nr") => Some(i),
+                    _ => None,
+                },
+                _ => None,
+            })
+            .collect();
+        if cands.is_empty() {
+            return;
+        }
+        let i = cands[self.src.pick(cands.len())];
+        let two = self.src.chance(90);
+        let sep = self.src.chance(128);
+        if let RuleDef::Normal(n) = &mut g.rules[i] {
+            let old = std::mem::replace(&mut n.body, Expr::Eoi);
+            let mut inner = vec![];
+            if sep {
+                inner.push(Expr::Opt(Box::new(Expr::lit("~"))));
+            }
+            inner.push(Expr::named("nt", "NulS"));
+            if two {
+                inner.push(Expr::named("nr", "NulR"));
+            }
+            n.body = Expr::Seq(vec![Expr::Group(Box::new(old)), Expr::Opt(Box::new(Expr::Seq(inner)))]);
+        }
+        g.rules.push(RuleDef::Normal(NormalRule {
+            name: "NulS".into(),
+            directives: vec![Directive::String, Directive::NoSkipWs],
+            body: Expr::Star(Box::new(Expr::lit("y"))),
+        }));
+        if two {
+            g.rules.push(RuleDef::Normal(NormalRule {
+                name: "NulR".into(),
+                directives: vec![],
+                body: Expr::Star(Box::new(Expr::Seq(vec![Expr::lit(","), Expr::named("items", "char")]))),
+            }));
+        }
+    }
+
     fn gen_custom_ws(&mut self) -> Vec<RuleDef> {
         // total by construction: a closure over terminals / a @no_skip_ws comment rule
         let mut alts = vec![];
@@ -1135,6 +1191,9 @@ impl<'a, 'b> Gen<'a, 'b> {
         }
         if self.src.chance(self.prof.p_sibling) {
             self.add_siblings(&mut g);
+        }
+        if self.src.chance(self.prof.p_nullable_tail) {
+            self.add_nullable_tail(&mut g);
         }
         if self.src.chance(self.prof.p_custom_ws) {
             g.rules.extend(self.gen_custom_ws());
